@@ -53,7 +53,8 @@ EscKeys == {<<"a", "QUOTE", "b">>, <<"QUOTE">>, <<"a", "BSL">>, <<"BSL", "b">>, 
             <<"LF">>, <<"a", "TAB">>, <<"C01">>, <<"C1F">>, <<"CR">>, <<"BS">>, <<"FF", "a">>,
             <<"BSL", "u", "0", "0", "4", "1">>, <<"QUOTE", ":", "QUOTE">>}
 AllKeys == GoodKeys \cup OddKeys \cup EscKeys
-SortKeys == {<<"a">>, <<"a", "b">>, <<"a", "1">>, <<"B">>, <<"_", "x">>, <<"b">>, <<"Z">>, <<"a", "_">>, <<"a", "a">>}
+SortKeysQ == {<<"a">>, <<"a", "b">>, <<"a", "1">>, <<"B">>, <<"_", "x">>, <<"b">>}
+SortKeys == SortKeysQ \cup {<<"Z">>, <<"a", "_">>, <<"a", "a">>}
 
 \* ---------------------------------------------------------------- trees ----
 ListsOver(X, w) == {ListV(s) : s \in UNION {Seqs(X, n) : n \in 0..w}}
@@ -77,6 +78,12 @@ Adj4 == {one, sa, ListV(<<>>), ObjV(<<Ent(kA, one)>>)}
 
 Wrap(x) == {x, ListV(<<x>>), ObjV(<<Ent(kA, x)>>)}
 
+\* maps whose key order matters: three keys out of K with scalars and containers as values, and a nested map
+SortFam(K) == {Canon(ObjV(<<Ent(ks[1], x), Ent(ks[2], one), Ent(ks[3], y)>>)) :
+                 ks \in {s \in Seqs(K, 3) : s[1] # s[2] /\ s[1] # s[3] /\ s[2] # s[3]}, x \in {one, ListV(<<>>)}, y \in {one, ListV(<<>>)}}
+              \cup {Canon(ObjV(<<Ent(ks[1], one), Ent(ks[2], ObjV(<<Ent(ks[2], one), Ent(ks[1], sa)>>))>>)) :
+                     ks \in {s \in Seqs(K \cup {<<>>, <<"EACU">>}, 2) : s[1] # s[2]}}
+
 \* family name -> set of values
 FamVals(f) ==
   CASE f = "leaf" -> UNION {Wrap(x) : x \in LeafAll}
@@ -89,10 +96,8 @@ FamVals(f) ==
                     \cup {Canon(ObjV(<<Ent(k, ListV(<<>>)), Ent(kB, one)>>)) : k \in AllKeys \ {kB}}
                     \cup {ListV(<<ObjV(<<Ent(k, sa)>>), one>>) : k \in AllKeys}
     [] f = "key2" -> {Canon(ObjV(<<Ent(k1, one), Ent(k2, sa)>>)) : k1 \in OddKeys \cup EscKeys, k2 \in AllKeys}
-    [] f = "sort" -> {Canon(ObjV(<<Ent(ks[1], x), Ent(ks[2], one), Ent(ks[3], y)>>)) :
-                        ks \in {s \in Seqs(SortKeys, 3) : s[1] # s[2] /\ s[1] # s[3] /\ s[2] # s[3]}, x \in {one, ListV(<<>>)}, y \in {one, ListV(<<>>)}}
-                     \cup {Canon(ObjV(<<Ent(ks[1], one), Ent(ks[2], ObjV(<<Ent(ks[2], one), Ent(ks[1], sa)>>))>>)) :
-                            ks \in {s \in Seqs(SortKeys \cup {<<>>, <<"EACU">>}, 2) : s[1] # s[2]}}
+    [] f = "sort" -> SortFam(SortKeysQ)
+    [] f = "sortwide" -> SortFam(SortKeys)
     [] f = "tree1" -> T1
     [] f = "tree2" -> T2
     [] f = "tree2wide" -> T2wide
@@ -138,6 +143,8 @@ JsonFormOfStrs == (IsCase /\ cs.fmt = "json" /\ cs.sorted) =>
                     WriteText(Canon(Strs(cs.v)), "json", cs.ind, {}) = WriteText(Canon(cs.v), "json", cs.ind, {})
 \* a guided writer finds the order back from any text the writer can produce
 GuideFindsOrder == IsCase => \A o \in cs.outs : WriteGuided(Canon(cs.v), cs.fmt, cs.ind, {}, o.text) = o.text
+\* ... also from the texts of the deviating writer (raw keys), so that the judge can attribute them
+GuideFindsOrderK == IsCase => \A o \in cs.outsK : WriteGuided(Canon(cs.v), cs.fmt, cs.ind, KnownDev, o.text) = o.text
 \* tight and one-line modes never contain a newline; only indent > 0 does
 LayoutShape == (IsCase /\ cs.ind <= 0) => \A o \in cs.outs : \A i \in DOMAIN o.text : o.text[i] # "LF"
 
